@@ -747,6 +747,56 @@ class Fn:
             return b[0] == local
         return False
 
+    # ------------------------------------------------------------------ origin of a reference
+    def origin(self, o, depth=0):
+        """follow an operand through once-assigned temporaries, borrows, reborrows and
+        Deref/DerefMut/AsRef/AsMut/Borrow/Clone calls to the place it designates.
+        -> projection string such as '_1.0*.pending_connections' (base local first)"""
+        p = op_place(o) if isinstance(o, dict) else o
+        if p is None:
+            return "const"
+        return self._origin_place(p, depth)
+
+    def _origin_place(self, p, depth):
+        base = p[0]
+        rest = "".join(p[1:])
+        if depth > 12 or 1 <= base <= self.argc:
+            return "_%d%s" % (base, rest)
+        d = self.single_def(base)
+        if d is None:
+            return "_%d%s" % (base, rest)
+        node, kind, pl = d
+        if kind == "assign":
+            rv = pl["rv"]
+            if rv["r"] == "ref":
+                inner = self._origin_place(rv["p"], depth + 1)
+                # `&x` then `*tmp` cancel
+                if rest.startswith("*"):
+                    return inner + rest[1:]
+                return "&" + inner + rest
+            if rv["r"] == "use":
+                q = op_place(rv["o"])
+                if q is not None:
+                    inner = self._origin_place(q, depth + 1)
+                    if inner.startswith("&") and rest.startswith("*"):
+                        return inner[1:] + rest[1:]
+                    return inner + rest
+            return "_%d%s" % (base, rest)
+        if kind == "call":
+            c = Call(self, node, pl)
+            if c.name and re.search(r"(Deref|DerefMut)::deref(_mut)?$|::as_ref$|::as_mut$|::borrow(_mut)?$|Pin<.*>::(get_mut|as_mut|get_unchecked_mut|into_inner|new_unchecked|new|get_ref|into_ref)$|pin::Pin::(get_mut|as_mut|get_unchecked_mut|new_unchecked|new|get_ref|into_ref|map_unchecked_mut)$", c.name) and c.args:
+                inner = self.origin(c.args[0], depth + 1)
+                if inner.startswith("&") and rest.startswith("*"):
+                    return inner[1:] + rest[1:]
+                return inner + rest
+        return "_%d%s" % (base, rest)
+
+    def recv(self, call):
+        """origin string of the receiver (first argument) of a call"""
+        if not call.args:
+            return ""
+        return self.origin(call.args[0])
+
     # ------------------------------------------------------------------ misc
     def local_ty(self, l):
         return self.locals[l]
